@@ -17,6 +17,7 @@ _L = "esrally/track/loader.py"
 _T = "esrally/track/track.py"
 _R = "esrally/driver/runner.py"
 _P = "esrally/track/params.py"
+_S = "esrally/resources/track-schema.json"
 
 # documented task keys -> Task constructor parameter (docs/track.rst, schedule element properties)
 TASK_KEYS = {
@@ -29,6 +30,135 @@ INHERITED = {"warmup-iterations": "default_warmup_iterations", "iterations": "de
 DOC_KEYS = {"base-url": "base_url", "source-format": "source_format", "document-count": "number_of_documents", "compressed-bytes": "compressed_size_in_bytes",
             "uncompressed-bytes": "uncompressed_size_in_bytes", "includes-action-and-meta-data": "includes_action_and_meta_data", "target-index": "target_index",
             "target-type": "target_type", "target-data-stream": "target_data_stream", "meta": "meta_data"}
+
+# values docs/track.rst documents for operation parameters that the top-level `operations` block of track-schema.json constrains: (operation type, key, representative value).
+# One representative per documented form ("a string otherwise a list of strings"; "number of pages ... To retrieve all result pages, use the value "all"").
+DOCUMENTED_OPERATION_VALUES = [
+    ("bulk", "bulk-size", 5000), ("bulk", "pipeline", "my-pipeline"), ("bulk", "conflicts", "sequential"), ("bulk", "conflicts", "random"), ("bulk", "request-timeout", 1.5),
+    ("force-merge", "index", "logs-2024"), ("force-merge", "mode", "blocking"), ("force-merge", "mode", "polling"), ("force-merge", "poll-period", 10),
+    ("search", "index", "logs-*"), ("search", "type", "docs"), ("search", "cache", True), ("search", "cache", False), ("search", "body", {"query": {"match_all": {}}}),
+    ("search", "pages", 2), ("search", "pages", "all"), ("search", "results-per-page", 100),
+    ("paginated-search", "pages", 2), ("paginated-search", "pages", "all"), ("paginated-search", "results-per-page", 100),
+    ("scroll-search", "pages", 2), ("scroll-search", "pages", "all"), ("scroll-search", "results-per-page", 100),
+    ("composite-agg", "pages", 2), ("composite-agg", "pages", "all"), ("composite-agg", "results-per-page", 100),
+    ("sql", "pages", 2), ("sql", "body", {"query": "SELECT 1"}),
+    ("create-index", "index", "logs-1"), ("create-index", "index", ["logs-1", "logs-2"]), ("create-index", "body", {"settings": {"index.number_of_shards": 1}}),
+    ("delete-index", "index", "logs-1"), ("delete-index", "index", ["logs-1", "logs-2"]),
+    ("refresh", "index", "logs-1"), ("open-point-in-time", "index", "logs-*"),
+]
+
+
+def _accepts_local(schema, inst, root):
+    """None if `inst` satisfies the draft-04 `schema`, else the reason. Only the keywords listed here are interpreted; any other keyword raises Unsupported (-> inconclusive)."""
+    ignored = {"title", "description", "$schema", "definitions", "default", "id", "examples"}
+    types = {"string": lambda x: isinstance(x, str), "integer": lambda x: isinstance(x, int) and not isinstance(x, bool), "boolean": lambda x: isinstance(x, bool),
+             "number": lambda x: isinstance(x, (int, float)) and not isinstance(x, bool), "object": lambda x: isinstance(x, dict), "array": lambda x: isinstance(x, list), "null": lambda x: x is None}
+    if "$ref" in schema:
+        ref = schema["$ref"]
+        if not (isinstance(ref, str) and ref.startswith("#/")):
+            raise Unsupported(f"$ref {ref!r}")
+        tgt = root
+        for part in ref[2:].split("/"):
+            tgt = tgt[part.replace("~1", "/").replace("~0", "~")]
+        return _accepts_local(tgt, inst, root)
+    num = isinstance(inst, (int, float)) and not isinstance(inst, bool)
+    for kw, val in schema.items():
+        if kw in ignored:
+            continue
+        if kw == "type":
+            names = val if isinstance(val, list) else [val]
+            if any(n not in types for n in names):
+                raise Unsupported(f"type {val!r}")
+            if not any(types[n](inst) for n in names):
+                return f"{inst!r} is not of type {val!r}"
+        elif kw == "enum":
+            if not any(inst == x and isinstance(inst, bool) == isinstance(x, bool) for x in val):
+                return f"{inst!r} is not one of {val!r}"
+        elif kw in ("minimum", "maximum"):
+            excl = schema.get("exclusiveMinimum" if kw == "minimum" else "exclusiveMaximum", False)
+            if num and ((inst < val or (excl and inst == val)) if kw == "minimum" else (inst > val or (excl and inst == val))):
+                return f"{inst!r} violates {kw} {val!r}"
+        elif kw in ("exclusiveMinimum", "exclusiveMaximum"):
+            if not isinstance(val, bool):
+                raise Unsupported(f"{kw} {val!r} (not draft-04)")
+        elif kw in ("minLength", "maxLength"):
+            if isinstance(inst, str) and (len(inst) < val if kw == "minLength" else len(inst) > val):
+                return f"{inst!r} violates {kw} {val!r}"
+        elif kw == "pattern":
+            if isinstance(inst, str) and re.search(val, inst) is None:
+                return f"{inst!r} does not match {val!r}"
+        elif kw in ("minItems", "maxItems"):
+            if isinstance(inst, list) and (len(inst) < val if kw == "minItems" else len(inst) > val):
+                return f"{inst!r} violates {kw} {val!r}"
+        elif kw == "uniqueItems":
+            if val and isinstance(inst, list) and any(inst[i] == inst[j] for i in range(len(inst)) for j in range(i)):
+                return f"{inst!r} has non-unique items"
+        elif kw == "items":
+            if not isinstance(val, dict):
+                raise Unsupported("tuple-typed items")
+            if isinstance(inst, list):
+                for x in inst:
+                    r = _accepts_local(val, x, root)
+                    if r is not None:
+                        return r
+        elif kw == "properties":
+            if isinstance(inst, dict):
+                for pk, ps in val.items():
+                    if pk in inst:
+                        r = _accepts_local(ps, inst[pk], root)
+                        if r is not None:
+                            return r
+        elif kw == "additionalProperties":
+            if isinstance(inst, dict) and val is not True:
+                extra = [pk for pk in inst if pk not in schema.get("properties", {})]
+                if "patternProperties" in schema:
+                    raise Unsupported("patternProperties")
+                for pk in extra:
+                    if val is False:
+                        return f"additional property {pk!r}"
+                    r = _accepts_local(val, inst[pk], root)
+                    if r is not None:
+                        return r
+        elif kw == "required":
+            if isinstance(inst, dict):
+                missing = [pk for pk in val if pk not in inst]
+                if missing:
+                    return f"required {missing!r} missing"
+        elif kw in ("anyOf", "oneOf"):
+            n_ok = sum(1 for s_ in val if _accepts_local(s_, inst, root) is None)
+            if n_ok == 0 or (kw == "oneOf" and n_ok != 1):
+                return f"{inst!r} is not valid under {'any' if n_ok == 0 else 'exactly one'} of the {kw} alternatives"
+        elif kw == "allOf":
+            for s_ in val:
+                r = _accepts_local(s_, inst, root)
+                if r is not None:
+                    return r
+        elif kw == "not":
+            if _accepts_local(val, inst, root) is None:
+                return f"{inst!r} is valid under the `not` schema"
+        else:
+            raise Unsupported(f"schema keyword {kw!r}")
+    return None
+
+
+def schema_acceptor(schema):
+    """instance -> None (accepted) / reason (rejected), deciding an EXTRACTED constant schema: with the jsonschema package when it is importable (the validator class the schema's own
+    $schema selects, as jsonschema.validate does), otherwise with the local draft-04 subset."""
+    try:
+        import jsonschema
+
+        validator = jsonschema.validators.validator_for(schema)(schema)
+
+        def accepts(inst):
+            try:
+                err = next(iter(validator.iter_errors(inst)), None)
+            except Exception as e:  # a malformed schema (unresolvable $ref, wrong keyword value) surfaces from inside the library: inconclusive, not a verdict
+                raise Unsupported(f"jsonschema: {type(e).__name__}: {e}")
+            return None if err is None else err.message
+
+        return accepts
+    except ImportError:
+        return lambda inst: _accepts_local(schema, inst, schema)
 
 
 def hyphenate(name: str) -> str:
@@ -92,14 +222,16 @@ def assigned_from(func, pred):
 def run(chk):
     repo = chk.repo
     ldr, trk, rn, pr = repo.module(_L), repo.module(_T), repo.module(_R), repo.module(_P)
-    chk.use(ldr, trk, rn, pr, "esrally/resources/track-schema.json", "docs/track.rst")
+    chk.use(ldr, trk, rn, pr, _S, "docs/track.rst")
     chk.explanation = (
         "Decides the loader by tables and flows: the operation-type registry is a bijection between hyphenated literals and enum members that agrees with to_hyphenated_string and with the "
         "runner / param-source registrations; each documented task and document-set key flows into the constructor parameter and attribute of that meaning, with parallel defaults read from "
         "the same key and passed positionally to the matching parameter; _error raises on every path; schema and version validation dominate construction; the validation block of "
         "parse_task abstractly interpreted over {warm-up iterations, iterations, warm-up period, period, ramp-up (none / <= warm-up / > warm-up)} rejects exactly the documented mixes; "
         "dedupe idioms for task / challenge / operation / corpus names; default-challenge rules; completed-by rules; indices vs data streams; reserved and unused track parameters checked "
-        "between building and returning the track; every rendered template registers its variables first; nested includes resolve relative to the including file."
+        "between building and returning the track; every rendered template registers its variables first; nested includes resolve relative to the including file. Value tables: the "
+        "statements assigning the corpus-level target defaults interpreted for 0 / 1 / 2 indices and data streams; documented operation-parameter values validated against the item schema of "
+        "the operations block (an extracted constant); the include pattern of TemplateSource matched against the spellings of the collect helper call and of {% include %}."
     )
     chk.not_decided = "Jinja rendering semantics (incl. the text of the built-in macros), JSON-schema semantics, free-form operation parameters."
     SR = ldr.cls("TrackSpecificationReader")
@@ -189,7 +321,8 @@ def run(chk):
     # ---- O10.2 field flow ----------------------------------------------------------------------------------------------------------------------------
     chk.rule("O10.2", "each documented task key reaches the Task parameter and attribute of that meaning; the five inheritable keys default to the parameter that parse_parallel fills from the "
              "SAME key of the parallel element (positional agreement); completed-by flags derive from comparing the task name with the parallel's completed-by / 'any'; schedule order is "
-             "append order; document-set keys reach the Documents parameter of that meaning with corpus-level defaults", 40,
+             "append order; document-set keys reach the Documents parameter of that meaning with corpus-level defaults; the corpus-level target-index / target-data-stream / target-type are "
+             "read from the corpus specification for every size (0, 1, 2) of the track's own indices / data-streams sections (value table)", 40,
              "a track's warm-up iterations load as iterations (or similar): the race runs something else than the file says, silently")
     pt = method(ldr, SR, "parse_task")
     pp = method(ldr, SR, "parse_parallel")
@@ -331,6 +464,74 @@ def run(chk):
                    key=f"{_L}:_create_corpora:first-element-default:{u(x)}")
     chk.ob("O10.2", "first-element defaults located in _create_corpora", n_first >= 3, cr, f"{n_first} site(s)")
 
+    # the corpus-level defaults target-index / target-data-stream / target-type are "exactly those written in the file" whatever the track's OWN indices / data-streams sections
+    # contain (a track whose indices come from templates has none): on every path to the document loop the local that the document-level read falls back to holds the value read
+    # from the corpus specification under the same key. Decided on values: the statements that assign that local are interpreted for len(indices), len(data_streams) in {0, 1, 2}
+    # (and 0..2 types of the first index); the extracted tests are evaluated, nothing is read off the if/elif shape.
+    # roles: the document loop iterates over self._r(<corpus spec>, "documents"); a document-level read is self._r(<its loop variable>, KEY, default_value=<corpus-level local>)
+    doc_loops = [a for a in source.ancestors(dctor[0]) if isinstance(a, ast.For) and isinstance(a.iter, ast.Call) and r_key(a.iter)[0] == "documents"]
+    if not doc_loops or name_of(doc_loops[0].target) is None:
+        raise AnchorMissing("loop over self._r(<corpus spec>, 'documents') around track.Documents(...) in _create_corpora")
+    doc_loop = doc_loops[0]
+    corpus_var, doc_var = r_root(doc_loop.iter), doc_loop.target.id
+    corpus_loop = next((a for a in source.ancestors(doc_loop) if isinstance(a, ast.For) and name_of(a.target) == corpus_var), None)
+    if corpus_loop is None or len(params_of(cr)) < 4:
+        raise AnchorMissing("loop over the corpus specifications around the document loop / _create_corpora(self, <corpora>, <indices>, <data streams>)")
+    p_idx, p_ds = params_of(cr)[2], params_of(cr)[3]
+    # the statements (as written) that run before the document loop: plain single-name assignments ahead of the corpus loop (a test may refer to them), then the corpus loop's own
+    before_docs = []
+    for s_ in source.flat(cr.body):
+        if s_ is corpus_loop or any(x is corpus_loop for x in source.walk_explicit(s_)):
+            break
+        if isinstance(s_, ast.Assign) and len(s_.targets) == 1 and isinstance(s_.targets[0], ast.Name):
+            before_docs.append(s_)
+    for s_ in source.flat(corpus_loop.body):
+        if s_ is doc_loop or any(x is doc_loop for x in source.walk_explicit(s_)):
+            break
+        before_docs.append(s_)
+    for key in ("target-index", "target-data-stream", "target-type"):
+        reads = [c for c in ast.walk(doc_loop) if isinstance(c, ast.Call) and r_key(c)[0] == key and r_root(c) == doc_var]
+        fallbacks = {name_of(arg_of(c, None, "default_value")) for c in reads}
+        if len(fallbacks) != 1 or None in fallbacks:
+            raise AnchorMissing(f"document-level read self._r({doc_var}, '{key}', default_value=<corpus-level local>) in _create_corpora (found fall-backs {sorted(map(str, fallbacks))})")
+        level_local = fallbacks.pop()
+
+        def assigns_level_local(s_):
+            return any(isinstance(x, ast.Assign) and any(name_of(t_) == level_local for t_ in x.targets) for x in source.walk_explicit(s_))
+
+        # the slice that decides the local: every statement (as written) that assigns it, plus plain single-name assignments a test may refer to
+        sel = [s_ for s_ in before_docs if assigns_level_local(s_) or (isinstance(s_, ast.Assign) and len(s_.targets) == 1 and isinstance(s_.targets[0], ast.Name))]
+        if not any(assigns_level_local(s_) for s_ in sel):
+            raise AnchorMissing(f"assignment of the corpus-level local `{level_local}` before the document loop of _create_corpora")
+        cur = {}
+
+        def see_bindings(s_, e_, b_):
+            cur["b"] = b_
+            return None
+
+        def value_atom(n, e_):
+            try:
+                return bool(ev(source.inline_node(n, {k_: v_ for k_, v_ in cur.get("b", {}).items() if v_ is not None and k_ not in e_}), e_))
+            except CannotEval:
+                return None
+
+        for ni, nd in ((0, 0), (0, 1), (0, 2), (1, 0), (2, 0)):  # both sections at once is rejected before (O10.5)
+            lost = []
+            try:
+                for nt in ((0, 1, 2) if ni else (0,)):
+                    env = {p_idx: [Record(name=f"index-{j}", types=[f"type-{k_}" for k_ in range(nt)]) for j in range(ni)], p_ds: [Record(name=f"stream-{j}") for j in range(nd)]}
+                    cur.clear()
+                    out = decide(sel, value_atom, env, on_stmt=see_bindings)
+                    final = getattr(out, "bindings", {}).get(level_local) if out.kind == "fallthrough" else None
+                    if not (isinstance(final, ast.Call) and r_key(final)[0] == key and r_root(final) == corpus_var):
+                        lost.append(f"{nt} type(s): {level_local} = {short(final, 60) if final is not None else out.text()}")
+            except (Unsupported, UnknownAtom) as e:
+                chk.unknown("O10.2", f"the statements that assign `{level_local}` in _create_corpora are not a decision over the sizes of `{p_idx}` / `{p_ds}`: {e}", cr)
+                break
+            chk.ob("O10.2", f"corpus-level '{key}' is read from the corpus specification when the track defines {ni} index(es) and {nd} data stream(s)", not lost, sel[-1],
+                   "" if not lost else f"{'; '.join(lost)} — the value written on the corpus is dropped: documents without their own '{key}' lose it (or the track is rejected as having no target)",
+                   key=f"{_L}:TrackSpecificationReader._create_corpora:corpus-level-default:{key}:indices={ni}:data-streams={nd}")
+
     # ---- O10.3 error helper -----------------------------------------------------------------------------------------------------------------------------------
     chk.rule("O10.3", "the error helper raises a track syntax error on every path", 1, "a detected rule violation is only logged and the invalid track is loaded")
     ef = method(ldr, SR, "_error")
@@ -339,7 +540,9 @@ def run(chk):
     chk.ob("O10.3", "_error has no normal exit", ok, ef, "")
 
     # ---- O10.4 validation dominates construction -----------------------------------------------------------------------------------------------------------------
-    chk.rule("O10.4", "schema validation and the version window check dominate the call that builds the track; their failures are re-raised as errors", 4,
+    chk.rule("O10.4", "schema validation and the version window check dominate the call that builds the track; their failures are re-raised as errors; the schema constrains a key "
+             "identically wherever it may be written, and its operations block accepts every value docs/track.rst documents for an operation parameter (tiny instances validated against the "
+             "extracted item schema)", 4,
              "a track violating the schema (or of an unsupported version) is loaded")
     rd = method(ldr, FR, "read")
     gr = cfg_of(rd)
@@ -403,7 +606,7 @@ def run(chk):
     import json as _json
 
     try:
-        sj = _json.loads(repo.text("esrally/resources/track-schema.json"))
+        sj = _json.loads(repo.text(_S))
         items = sj["definitions"]["schedule"]["items"]["properties"]
         par = items["parallel"]["properties"]
         sub = par["tasks"]["items"]["properties"]
@@ -432,10 +635,40 @@ def run(chk):
             chk.ob("O10.4", f"schema: '{k_}' is constrained identically in every place it may be written ({group})", ok, sch,
                    "" if ok else "; ".join(f"{nm}: {v_[:70]}" for nm, v_ in have) + " — a value rejected in one place is accepted in another", key=f"esrally/resources/track-schema.json:sibling:{group}:{k_}")
     chk.ob("O10.4", "schema sibling definitions located", n_sib >= 14, sch, f"{n_sib} shared key(s)")
+    # the schema may only reject what the documentation rules out: an operation defined in the top-level `operations` block with a value docs/track.rst documents for that
+    # operation type (and that the same operation written inline in the schedule — untyped there — loads with) must pass the block's item schema. The item schema is an extracted
+    # constant; tiny instances {"name", "operation-type", KEY: VALUE} are validated against it (jsonschema if importable — the library the loader itself applies — else the local
+    # draft-04 subset below). Nothing of the repository runs.
+    try:
+        op_items = sj["properties"]["operations"]["items"]
+        if not isinstance(op_items, dict) or not isinstance(op_items.get("properties"), dict):
+            raise KeyError("items.properties")
+    except (KeyError, TypeError) as e:
+        raise AnchorMissing(f"properties.operations.items of track-schema.json ({type(e).__name__}: {e})")
+    op_schema = dict(op_items)
+    for k_ in ("$schema", "definitions"):
+        if k_ in sj:
+            op_schema.setdefault(k_, sj[k_])
+    accepts = schema_acceptor(op_schema)
+    n_doc = 0
+    for optype, k_, v_ in DOCUMENTED_OPERATION_VALUES:
+        try:
+            bare = accepts({"name": "op", "operation-type": optype})
+            why = accepts({"name": "op", "operation-type": optype, k_: v_})
+        except Unsupported as e:
+            chk.unknown("O10.4", f"the item schema of the operations block uses a keyword this check does not interpret: {e}", sch)
+            break
+        n_doc += 1
+        ok = bare is None and why is None
+        chk.ob("O10.4", f"schema (operations block): the documented `\"{k_}\": {_json.dumps(v_)}` of a {optype} operation is accepted", ok, sch,
+               "" if ok else f"{why or bare} — a valid, documented operation is rejected with a track syntax error when it is defined in the operations block (inline in the schedule it loads)",
+               key=f"{_S}:operations-block:{optype}:{k_}:{_json.dumps(v_)}", why="a valid track that follows docs/track.rst is rejected with a track syntax error instead of being loaded")
+    chk.ob("O10.4", "documented operation values validated against the operations block", n_doc == len(DOCUMENTED_OPERATION_VALUES), sch, f"{n_doc} value(s)")
 
     # ---- O10.5 documented rules ------------------------------------------------------------------------------------------------------------------------------------
     chk.rule("O10.5", "documented rules reject: duplicate task / challenge / operation / corpus names (dedupe idiom: membership test on the set/dict the same loop fills); none or several default "
-             "challenges; iterations mixed with time periods and ramp-up without sufficient warm-up (decision table over 48 abstract tasks); ramp-up only on the parallel element; unknown or "
+             "challenges; iterations mixed with time periods and ramp-up without sufficient warm-up (decision table over 48 abstract tasks, of which the sixteen without a ramp-up are the value "
+             "table {warmup-iterations, iterations} x {warmup-time-period, time-period}: ANY iteration field with ANY time-period field is rejected); ramp-up only on the parallel element; unknown or "
              "ambiguous completed-by; indices together with data streams; reserved and unused track parameters between building and returning the track", 50,
              "a specification violating that rule is loaded and run instead of being rejected")
 
@@ -490,7 +723,7 @@ def run(chk):
     own = next((getattr(source.parent(tstmt), f_) for f_ in ("body", "orelse", "finalbody") if isinstance(getattr(source.parent(tstmt), f_, None), list)
                 and any(x is tstmt for x in getattr(source.parent(tstmt), f_))), pt.body)
     block = [s for s in stmts_of(own[[i for i, x in enumerate(own) if x is tstmt][0] + 1:]) if not isinstance(s, ast.Return)]
-    n_rows = 0
+    n_rows = n_four = 0
     for wi, it, wt, tp, ru in itertools.product([False, True], [False, True], [False, True], [False, True], ["none", "le", "gt"]):
         if ru != "none" and not wt and ru == "le":
             continue  # ramp-up compared with a missing warm-up: covered by the 'gt' representative
@@ -527,13 +760,29 @@ def run(chk):
             chk.unknown("O10.5", f"validation block of parse_task is not a decision over the five task fields: {e}", pt)
             break
         rejected = out.kind == "raise"
-        want = (wi and tp) or (wt and it) or ((wi or it) and ru != "none") or (ru != "none" and not wt) or (ru == "gt" and wt)
+        # documented rule (property text; the loader's own message: "mixing time periods and iterations is not allowed"): ANY of the two iteration-counted fields together with ANY of the two
+        # time-period fields, not only the two crossed pairs (a task carrying iterations AND a time period runs time-based: the iteration count in the file is silently ignored)
+        mixed = (wi or it) and (wt or tp)
+        want = mixed or ((wi or it) and ru != "none") or (ru != "none" and not wt) or (ru == "gt" and wt)
         n_rows += 1
-        desc = ", ".join(k for k, v in (("warmup-iterations", wi), ("iterations", it), ("warmup-time-period", wt), ("time-period", tp)) if v) or "no iteration/time fields"
+        fields = [k for k, v in (("warmup-iterations", wi), ("iterations", it), ("warmup-time-period", wt), ("time-period", tp)) if v]
+        desc = ", ".join(fields) or "no iteration/time fields"
         desc += {"none": "", "le": ", ramp-up <= warm-up", "gt": ", ramp-up > warm-up period (or no warm-up period)"}[ru]
-        chk.ob("O10.5", f"task with {desc}: {'rejected' if want else 'accepted'}", rejected == want, pt, f"code {'rejects' if rejected else 'accepts'}; documented: {'reject' if want else 'accept'}",
-               key=f"{_L}:parse_task:mix:{wi}|{it}|{wt}|{tp}|{ru}")
+        # the sixteen rows without a ramp-up ARE the value table over the four fields {warmup-iterations, iterations, warmup-time-period, time-period} x {absent, present}; they carry a
+        # stable construct key of their own (one per combination of fields), the rows with a ramp-up keep theirs
+        if ru == "none":
+            n_four += 1
+            row_key = f"{_L}:TrackSpecificationReader.parse_task:mixing:[{'+'.join(fields) or 'none'}]"
+            detail = f"code {'rejects' if rejected else 'accepts'}; documented: {'reject' if want else 'accept'}"
+            if want and not rejected:
+                detail += (f" — the validation chain behind the Task construction has no arm for this combination: the task is loaded with both {fields[0]} and {fields[-1]}, "
+                           "the driver schedules it time-based and ignores the iteration count written in the file")
+        else:
+            row_key = f"{_L}:parse_task:mix:{wi}|{it}|{wt}|{tp}|{ru}"
+            detail = f"code {'rejects' if rejected else 'accepts'}; documented: {'reject' if want else 'accept'}"
+        chk.ob("O10.5", f"task with {desc}: {'rejected' if want else 'accepted'}", rejected == want, pt, detail, key=row_key)
     chk.ob("O10.5", "mixing-rule table evaluated", n_rows >= 40, pt, f"{n_rows} abstract tasks")
+    chk.ob("O10.5", "four-field table (iteration fields x time-period fields, no ramp-up) evaluated on all sixteen combinations", n_four == 16, pt, f"{n_four} combination(s)")
     # ramp-up only on the parallel element
     # roles: the parallel's ramp-up is the local handed to parse_task(default_ramp_up_time_period=...); a sub-task is the loop variable of a loop over the sub-task list
     def subtask_var(site):
@@ -628,7 +877,8 @@ def run(chk):
 
     # ---- O10.6 parameter accounting ----------------------------------------------------------------------------------------------------------------------------------
     chk.rule("O10.6", "every template that is rendered has its undeclared variables registered with the accounting object before rendering (track file and every included index / template body); "
-             "nested includes resolve relative to the including file", 5,
+             "nested includes resolve relative to the including file; the parts Jinja itself pulls in at render time ({% include %}, any spelling of the collect helper call) are seen by the "
+             "accounting too", 5,
              "a track parameter used only in an included body is reported as unused (valid track rejected) / parts vanish from the assembled track")
     for f in ldr.functions():
         rcalls = [c for c in source.calls_in(f) if last_attr(c.func) == "render_template" and f.name != "render_template"]
@@ -678,6 +928,59 @@ def run(chk):
                    short(c, 80) + ("" if (fn_ok or const_ok or esc_ok) else " — the replacement is a string built from file contents: re.sub treats it as a template, so `\\t`, `\\n`, `\\\\` and `\\1` in the included part change"),
                    key=f"{_L}:TemplateSource.{f_.name}:sub-verbatim")
     chk.ob("O10.6", "include substitution located", n_sub >= 1, ri, f"{n_sub} re.sub site(s) in TemplateSource")
+    # parts reach the rendered track in two ways: textually (the pattern replace_includes substitutes) or through Jinja itself at render time ({% include %}, also the fall-back
+    # inside the collect macro). Track parameters used in a part are substituted in both cases (globals are visible in includes), so the accounting that decides "unused
+    # track parameter" has to see those parts as well.
+    # role: the inlining pattern is the compiled regular expression whose findall / finditer / sub is applied to the fragment in replace_includes (a class-level constant)
+    appl = [c.func.value for c in source.calls_in(ri) if isinstance(c.func, ast.Attribute) and c.func.attr in ("findall", "finditer", "sub", "subn", "search")]
+    pat_attrs = {x.attr for x in appl if isinstance(x, ast.Attribute) and dotted(x) is not None and dotted(x).split(".")[0] in ("TemplateSource", "self", "cls")}
+    pat_globals = {x.id for x in appl if isinstance(x, ast.Name)}  # ... or a module-level constant
+    inline_res = []
+    for n in [n_ for body_, names_ in ((TS.body, pat_attrs), (ldr.tree.body, pat_globals)) for n_ in body_
+              if isinstance(n_, ast.Assign) and len(n_.targets) == 1 and name_of(n_.targets[0]) in names_]:
+        if isinstance(n.value, ast.Call) and dotted(n.value.func) == "re.compile" and n.value.args and isinstance(n.value.args[0], ast.Constant) and isinstance(n.value.args[0].value, str):
+            flags = 0
+            fl = arg_of(n.value, 1, "flags")
+            for x in ([] if fl is None else [x_ for x_ in ast.walk(fl) if isinstance(x_, ast.Attribute)]):
+                if dotted(x) is None or not dotted(x).startswith("re.") or not isinstance(getattr(re, x.attr, None), re.RegexFlag):
+                    raise AnchorMissing(f"flags of {u(n.value)[:60]} are not re.<FLAG> constants")
+                flags |= getattr(re, x.attr)
+            try:
+                inline_res.append((n, re.compile(n.value.args[0].value, flags)))
+            except re.error as e:
+                raise AnchorMissing(f"the inlining pattern of TemplateSource does not compile: {e}")
+    if not inline_res:
+        raise AnchorMissing("class- or module-level `re.compile(<literal>)` whose findall / sub is applied in TemplateSource.replace_includes")
+    part = "parts/*.json"
+
+    def inlined(text):
+        """some inlining pattern recognises the text as a reference to `part` (the captured group is what replace_includes globs for)."""
+        return any(m is not None and part in m.groups() for m in (rx.search(text) for _, rx in inline_res))
+
+    canonical = '{{ rally.collect(parts="parts/*.json") }}'
+    chk.ob("O10.6", "the documented spelling of the collect helper is inlined for parameter accounting", inlined(f'"operations": [ {canonical} ]'), inline_res[0][0], canonical)
+    # every spelling of the same call that Jinja parses to the same thing renders the parts too (through the macro) — the accounting must not depend on the spelling
+    spellings = {"no blanks inside the braces": '{{rally.collect(parts="parts/*.json")}}', "single quotes": "{{ rally.collect(parts='parts/*.json') }}",
+                 "positional argument": '{{ rally.collect("parts/*.json") }}', "whitespace control": '{{- rally.collect(parts="parts/*.json") -}}',
+                 "blanks inside the call": '{{ rally.collect( parts = "parts/*.json" ) }}'}
+    unseen = [f"{nm}: {sp}" for nm, sp in spellings.items() if not inlined(f'"operations": [ {sp} ]')]
+    chk.ob("O10.6", "every spelling of the collect helper call that Jinja renders is recognised for parameter accounting (blanks, quote style, positional argument, whitespace control)",
+           not unseen, inline_res[0][0],
+           "" if not unseen else f"not recognised by {inline_res[0][1].pattern!r}: {'; '.join(unseen)} — the parts are still rendered (the macro includes them), but the parameters they use "
+           "are never registered: a user who sets one gets 'Unused track parameters' and the valid track is rejected",
+           key=f"{_L}:TemplateSource.replace_includes:collect-helper-spellings")
+    # templates pulled in by Jinja's own {% include "..." %} (documented in docs/adding_tracks.rst): the accounting follows them — it asks Jinja for the referenced templates
+    # (meta.find_referenced_templates / a walk over Include nodes) in the code that assembles or registers the source, or a textual inlining pattern recognises the tag
+    acct = [ra] + list(ldr.methods(TS).values()) + [f for f in ldr.functions() if f is not ra and any(last_attr(c.func) == "register_all_params_in_track" for c in source.calls_in(f))]
+    follows = [c for f in acct for c in ast.walk(f) if isinstance(c, ast.Call) and (
+        last_attr(c.func) == "find_referenced_templates"
+        or (last_attr(c.func) in ("find_all", "find") and any(isinstance(x, (ast.Attribute, ast.Name)) and last_attr(x) == "Include" for a_ in c.args for x in ast.walk(a_))))]
+    tag_inlined = all(inlined(t_) for t_ in ('{% include "parts/*.json" %}', "{% include 'parts/*.json' %}", '{%- include "parts/*.json" -%}'))
+    ok = bool(follows) or tag_inlined
+    chk.ob("O10.6", "parameter accounting follows the templates Jinja includes at render time ({% include %})", ok, follows[0] if follows else ra,
+           "" if ok else f"register_all_params_in_track sees the assembled text only ({len(acct)} function(s) of the assembling / registering code looked at: no find_referenced_templates, no walk "
+           "over Include nodes, and the inlining pattern does not recognise the tag): a parameter used only in a part included with {% include %} is reported as unused and the valid track is rejected",
+           key=f"{_L}:register_all_params_in_track:jinja-includes-followed")
     lf = method(ldr, TS, "load_template_from_file")
     ok = any(isinstance(c, ast.Call) and u(c.func) == "self.replace_includes" and u(bind_args(c, ri).get("base_path")) == "self.base_path" for c in walk_body(lf))
     chk.ob("O10.6", "top-level includes resolve relative to the track's directory", ok, lf, "")
@@ -749,7 +1052,43 @@ VARIANTS = [
     V("missing completed-by task check inverted", "break", _L, "            if not has_completion_task:", "            if has_completion_task:", "O10.5"),
     V("Parallel built from another list", "break", _L, "        return track.Parallel(tasks, clients)", "        return track.Parallel(ops, clients)", "O10.2"),
     V("task gets the operation table instead of the operation", "break", _L, "            operation=op,\n", "            operation=ops,\n", "O10.2"),
+    # F35 (repaired in rally f556e67): corpus-level target-index / target-data-stream / target-type are read whatever the track's own indices / data-streams sections contain
+    V("F35 reverted: corpus-level target-index only read when the track defines indices", "break", _L,
+      "            else:\n                corpus_target_idx = self._r(corpus_spec, \"target-index\", mandatory=False)",
+      "            elif len(indices) > 0:\n                corpus_target_idx = self._r(corpus_spec, \"target-index\", mandatory=False)", "O10.2"),
+    V("F35 reverted: corpus-level target-data-stream only read when the track defines data streams", "break", _L,
+      "            else:\n                corpus_target_ds = self._r(corpus_spec, \"target-data-stream\", mandatory=False)",
+      "            elif len(data_streams) > 0:\n                corpus_target_ds = self._r(corpus_spec, \"target-data-stream\", mandatory=False)", "O10.2"),
+    V("F35 reverted: corpus-level target-type only read when the track defines indices", "break", _L,
+      "            else:\n                corpus_target_type = self._r(corpus_spec, \"target-type\", mandatory=False)",
+      "            elif len(indices) > 0:\n                corpus_target_type = self._r(corpus_spec, \"target-type\", mandatory=False)", "O10.2"),
+    V("F35 equivalent break: corpus-level target-type reset after it was read", "break", _L,
+      "                corpus_target_type = self._r(corpus_spec, \"target-type\", mandatory=False)\n",
+      "                corpus_target_type = self._r(corpus_spec, \"target-type\", mandatory=False)\n            if len(indices) == 0:\n                corpus_target_type = None\n", "O10.2"),
+    # F36 (repaired in rally b7e7eb0): the operations block of the schema accepts the documented pages: "all" and a list of index names
+    V("F36 reverted: pages of the operations block is an integer only", "break", _S, "\"anyOf\": [{\"type\": \"integer\", \"minimum\": 1}, {\"enum\": [\"all\"]}],",
+      "\"type\": \"integer\",\n            \"minimum\": 1,", "O10.4"),
+    V("F36 reverted: index of the operations block is a string only", "break", _S, "\"anyOf\": [{\"type\": \"string\"}, {\"type\": \"array\", \"items\": {\"type\": \"string\"}}],",
+      "\"type\": \"string\",", "O10.4"),
+    V("F36 equivalent break: the list form of index needs two entries and integers", "break", _S, "\"anyOf\": [{\"type\": \"string\"}, {\"type\": \"array\", \"items\": {\"type\": \"string\"}}],",
+      "\"anyOf\": [{\"type\": \"string\"}, {\"type\": \"array\", \"items\": {\"type\": \"integer\"}}],", "O10.4"),
     # preserving
+    V("F35 respelled: else -> elif with the complementary test", "keep", _L,
+      "            else:\n                corpus_target_idx = self._r(corpus_spec, \"target-index\", mandatory=False)",
+      "            elif len(indices) != 1:\n                corpus_target_idx = self._r(corpus_spec, \"target-index\", mandatory=False)"),
+    V("F35 respelled: arms swapped under the inverted test", "keep", _L,
+      "            if len(data_streams) == 1:\n                corpus_target_ds = self._r(corpus_spec, \"target-data-stream\", mandatory=False, default_value=data_streams[0].name)\n"
+      "            else:\n                corpus_target_ds = self._r(corpus_spec, \"target-data-stream\", mandatory=False)\n",
+      "            if len(data_streams) != 1:\n                corpus_target_ds = self._r(corpus_spec, \"target-data-stream\", mandatory=False)\n"
+      "            else:\n                corpus_target_ds = self._r(corpus_spec, \"target-data-stream\", mandatory=False, default_value=data_streams[0].name)\n"),
+    V("F35 respelled: size of the section held in a local, De Morgan in the else test", "keep", _L,
+      "            if len(indices) == 1 and len(indices[0].types) == 1:\n                corpus_target_type = self._r(corpus_spec, \"target-type\", mandatory=False, default_value=indices[0].types[0])\n            else:\n",
+      "            if len(indices) == 1 and len(indices[0].types) == 1:\n                corpus_target_type = self._r(corpus_spec, \"target-type\", mandatory=False, default_value=indices[0].types[0])\n"
+      "            elif len(indices) != 1 or len(indices[0].types) != 1:\n"),
+    V("F36 respelled: oneOf / string pattern instead of anyOf / enum", "keep", _S, "\"anyOf\": [{\"type\": \"integer\", \"minimum\": 1}, {\"enum\": [\"all\"]}],",
+      "\"oneOf\": [{\"type\": \"integer\", \"minimum\": 1}, {\"type\": \"string\", \"pattern\": \"^all$\"}],"),
+    V("F36 respelled: type list instead of anyOf", "keep", _S, "\"anyOf\": [{\"type\": \"string\"}, {\"type\": \"array\", \"items\": {\"type\": \"string\"}}],",
+      "\"type\": [\"string\", \"array\"], \"items\": {\"type\": \"string\"},"),
     V("registry literal on the left", "keep", _T, "        elif v == \"bulk\":", "        elif \"bulk\" == v:"),
     V("registry chain split into separate ifs", "keep", _T, "        elif v == \"bulk\":", "        if v == \"bulk\":"),
     V("version window via negated <=", "keep", _L, "        if TrackFileReader.MINIMUM_SUPPORTED_TRACK_VERSION > track_version:", "        if not (TrackFileReader.MINIMUM_SUPPORTED_TRACK_VERSION <= track_version):"),
